@@ -6,8 +6,8 @@ usage: gen_readers.py <repo> <anchors.json> [--update]
 Extracts the normalised text (comments and white space removed) of every mirrored function from the
 current source tree and compares its hash with the one recorded in <anchors.json> when the model was
 last aligned.  Exit 0: all anchors unchanged.  Exit 3: some function text changed (not a violation: the
-check lists it in the evidence and the correspondence run decides).  Exit 2: an anchor was not found
-(anchor lost => broken tie).  --update rewrites the file (done by hand after re-reading the code)."""
+check lists it in the evidence and the correspondence run decides).  Exit 2: the anchor file itself is missing.  A function that is no longer found (renamed, moved)
+is reported like a changed one (exit 3): these anchors carry text only, no data.  --update rewrites the file (done by hand after re-reading the code)."""
 import hashlib
 import json
 import os
@@ -120,7 +120,7 @@ def main():
             continue
         text = re.sub(r"\s+", "", bs[occ])
         cur[aid] = {"file": rel, "coq": coq, "sha1": hashlib.sha1(text.encode()).hexdigest()}
-    if lost:
+    if lost and update:
         print("anchor lost: " + "; ".join(lost))
         sys.exit(2)
     if update:
@@ -135,8 +135,13 @@ def main():
         print("anchor file missing or unreadable: " + dst)
         sys.exit(2)
     changed = [a for a in cur if old.get(a, {}).get("sha1") != cur[a]["sha1"]]
-    if changed:
-        print("readers anchors changed: " + ", ".join("%s (%s)" % (a, cur[a]["coq"]) for a in changed))
+    if changed or lost:
+        # these anchors are TEXT only (no constant or table is read from them): a mirrored function that was edited,
+        # renamed or moved is a note in the evidence — the correspondence runs decide whether behaviour changed
+        if changed:
+            print("readers anchors changed: " + ", ".join("%s (%s)" % (a, cur[a]["coq"]) for a in changed))
+        if lost:
+            print("readers anchors not found (renamed or moved; textual, a note): " + "; ".join(lost))
         sys.exit(3)
     print("readers anchors unchanged: %d" % len(cur))
     sys.exit(0)
